@@ -130,7 +130,7 @@ def run_case(ctx, kind, rng, idx):
     # counts stored in float32 / 16-bit integers are processed in single
     # precision by scipy (asfptype) and numpy: agreement is then required to
     # single precision only
-    eps = 5e-7 if (C.dtype == np.float32 or C.dtype.itemsize <= 2) else 1e-12
+    eps = 5e-6 if (C.dtype == np.float32 or C.dtype.itemsize <= 2) else 1e-12
     desc = {'builder': bname, 'prior': pk, 'eq': eqflag, 'n': n,
             'C': C if n <= 8 else 'elided', 'dtype': str(C.dtype)}
     ctx.describe(desc)
